@@ -24,6 +24,9 @@ type Config struct {
 	SSA   map[string]*ssa.Package
 	Repo  string
 	Funcs int
+	// helpers that play the role of a named helper under another name (anchors.go)
+	alias    map[*types.Func]string
+	aliasRev map[anchorRole]*ssa.Function
 }
 
 const modPath = "github.com/avfs/avfs"
@@ -101,6 +104,7 @@ func loadConfig(repo, name, tags string, extra ...string) (*Config, error) {
 			}
 		}
 	}
+	c.computeAliases()
 	return c, nil
 }
 
@@ -183,6 +187,11 @@ func (c *Config) method(short, typ, name string) *ssa.Function {
 			}
 		}
 	}
+	for _, star := range []string{"*", ""} {
+		if f := c.aliasRev[anchorRole{short, star + typ, name}]; f != nil {
+			return f
+		}
+	}
 	return nil
 }
 
@@ -191,7 +200,10 @@ func (c *Config) fn(short, name string) *ssa.Function {
 	if sp == nil {
 		return nil
 	}
-	return sp.Func(name)
+	if f := sp.Func(name); f != nil {
+		return f
+	}
+	return c.aliasRev[anchorRole{short, "", name}]
 }
 
 func (c *Config) named(short, typ string) *types.Named {
@@ -243,9 +255,9 @@ func funcName(f *ssa.Function) string {
 		if n, ok := t.(*types.Named); ok {
 			tn = n.Obj().Name()
 		}
-		return fmt.Sprintf("%s.(%s%s).%s", short, ptr, tn, f.Name())
+		return fmt.Sprintf("%s.(%s%s).%s", short, ptr, tn, nm(f))
 	}
-	return short + "." + f.Name()
+	return short + "." + nm(f)
 }
 
 func (c *Config) pos(p token.Pos) string {
